@@ -183,6 +183,9 @@ b("B70", V4BIN, "\t\tif self.coms.is_some() {\n\t\t\tstatus |= 0x01\n\t\t};", "\
 
 b("B71", TX, "\twallet.store_tx(&format!(\"{}\", tx.tx_slate_id.unwrap()), slate.tx_or_err()?)?;\n", "\tlet stored = wallet.store_tx(&format!(\"{}\", tx.tx_slate_id.unwrap()), slate.tx_or_err()?);\n\tstored?;\n", "stored-tx write: result bound to a local, then propagated")
 
+b("B72", "libwallet/src/slatepack/armor.rs", "\tif error_code.iter().eq(new_check.iter()) {", "\tif error_code == &new_check[..] {", "checksum compared as whole slices instead of iterators")
+b("B73", OWNER, "\tfor parent_key_id in accounts.iter() {\n\t\tif let Err(e) = updater::refresh_outputs(", "\tfor parent_key_id in &accounts {\n\t\tif let Err(e) = updater::refresh_outputs(", "account loop over a reference instead of iter()")
+
 
 def _apply(mu, repo_copy):
     p = os.path.join(repo_copy, mu["file"])
